@@ -151,7 +151,7 @@ func Generate(t *simrt.Tape, o Options) *Src {
 				}
 				if first {
 					l.Labels = append(l.Labels, label(b))
-					if t.Draw(6) == 1 {
+					if t.Draw(3) == 1 {
 						l.Labels = append(l.Labels, label(b)+"_alias")
 					}
 					first = false
@@ -202,11 +202,11 @@ func Generate(t *simrt.Tape, o Options) *Src {
 			p.Lines = append(p.Lines[:1], append(pre, p.Lines[1:]...)...)
 		}
 		p.Entry = label(0)
-		if o.EntryAnywhere && nb > 1 && t.Draw(5) == 1 {
+		if o.EntryAnywhere && nb > 1 && t.Draw(3) == 1 {
 			p.Entry = label(1 + t.Draw(nb-1))
 			s.EntryNotFirst = true
 		}
-		if o.EntryAnywhere && t.Draw(4) == 1 {
+		if o.EntryAnywhere && t.Draw(3) == 1 {
 			p.EntryPos = 1 + t.Draw(2)
 		}
 		s.Procs = append(s.Procs, p)
